@@ -517,7 +517,8 @@ def standin(tier, seed):
             sp = P.Subprocess([sys.executable, "-c", "import sys; sys.exit(%d)" % arg])
             want = arg
         else:
-            sp = P.Subprocess([sys.executable, "-c", "import time; time.sleep(30)"])
+            # (a binary with default signal dispositions: a Python child turns an early SIGINT into KeyboardInterrupt and *exits* 1 - seen once on a loaded machine)
+            sp = P.Subprocess(["/bin/sleep" if os.path.exists("/bin/sleep") else "sleep", "30"], preexec_fn=lambda: [signal.signal(s_, signal.SIG_DFL) for s_ in (signal.SIGINT, signal.SIGTERM, signal.SIGUSR1)])
             want = -int(arg)
         if kind == "signal":
             if late:
